@@ -28,21 +28,54 @@ type vTimer struct {
 	inner clocks.FakeTimer
 	armed bool
 	last  func()
+	// parking: EventBatcher calls Set (in Add) and Stop (in Flush) while it holds its mutex, so a caller parked in
+	// here sits in the middle of the batcher's critical section
+	parkNext string        // "set" / "stop": park the next such call
+	parked   chan struct{} // closed when the call has parked
+	release  chan struct{}
+}
+
+func (t *vTimer) park(kind string) {
+	t.mu.Lock()
+	if t.parkNext != kind {
+		t.mu.Unlock()
+		return
+	}
+	t.parkNext = ""
+	parked, release := t.parked, t.release
+	t.mu.Unlock()
+	close(parked)
+	<-release
+}
+
+func (t *vTimer) armPark(kind string) (parked, release chan struct{}) {
+	t.mu.Lock()
+	defer t.mu.Unlock()
+	t.parkNext, t.parked, t.release = kind, make(chan struct{}), make(chan struct{})
+	return t.parked, t.release
+}
+
+func (t *vTimer) disarmPark() {
+	t.mu.Lock()
+	t.parkNext = ""
+	t.mu.Unlock()
 }
 
 func (t *vTimer) Set(d time.Duration, do func()) {
 	t.mu.Lock()
-	defer t.mu.Unlock()
 	t.inner.Set(d, do)
 	t.armed = true
 	t.last = do
+	t.mu.Unlock()
+	t.park("set")
 }
 
 func (t *vTimer) Stop() {
 	t.mu.Lock()
-	defer t.mu.Unlock()
 	t.inner.Stop()
 	t.armed = false
+	t.mu.Unlock()
+	t.park("stop")
 }
 
 // callback returns the function to run for a fire (armed callback) or a stale fire (last callback).
@@ -55,7 +88,8 @@ func (t *vTimer) callback(stale bool) func() {
 	if !t.armed {
 		return nil
 	}
-	return t.inner.Trigger
+	// the armed callback itself (what FakeTimer.Trigger would call): it may be started now and run after a later Stop
+	return t.last
 }
 
 func curGid() uint64 {
@@ -107,10 +141,116 @@ func c20Batcher(c lib.Case, maxSize int, delay bool) []string {
 			return "timeout"
 		}
 	}
+	// one method call of the batcher: returns its result as text and how to record it in the history (recording is
+	// done by the harness goroutine, in lock order)
+	type callRes struct {
+		text string
+		rec  func()
+	}
+	call := func(f []string) (func() callRes, bool) {
+		switch {
+		case len(f) == 2 && f[0] == "add":
+			x, _ := strconv.Atoi(f[1])
+			return func() callRes { b.Add(x); return callRes{"-", func() { added = append(added, x) }} }, true
+		case len(f) == 1 && f[0] == "full":
+			return func() callRes { return callRes{strconv.FormatBool(b.IsFull()), func() {}} }, true
+		case len(f) == 2 && f[0] == "flush":
+			tok := batching.CurrentBatch
+			if f[1] != "cur" {
+				n, _ := strconv.Atoi(f[1])
+				tok = batching.BatchToken(n)
+			}
+			return func() callRes {
+				got := b.Flush(tok)
+				return callRes{showInts(got), func() { flushed = append(flushed, got) }}
+			}, true
+		}
+		return nil, false
+	}
+	var pendA, pendB chan callRes // results of the parked call A and of the call B waiting for the batcher's mutex
+	var relA chan struct{}
+	defer func() {
+		if relA != nil {
+			close(relA)
+		}
+	}()
 	out := make([]string, 0, len(c.Ops))
 	for _, op := range c.Ops {
 		f := strings.Fields(op)
+		if pendA != nil && !(len(f) >= 1 && (f[0] == "try" || f[0] == "unpark")) {
+			out = append(out, "busy") // the batcher's mutex is held by the parked call
+			continue
+		}
 		switch {
+		case len(f) >= 2 && (f[0] == "padd" || f[0] == "pflush"):
+			// run Add / Flush and park it inside the timer call it makes under the batcher's mutex
+			kind, g := "set", []string{"add", f[1]}
+			if f[0] == "pflush" {
+				kind, g = "stop", []string{"flush", f[1]}
+			}
+			fn, _ := call(g)
+			parked, release := tm.armPark(kind)
+			res := make(chan callRes, 1)
+			go func() { res <- fn() }()
+			select {
+			case r := <-res:
+				tm.disarmPark()
+				r.rec()
+				out = append(out, "done "+r.text)
+			case <-parked:
+				pendA, relA = res, release
+				out = append(out, "parked")
+			case <-time.After(10 * time.Second):
+				out = append(out, "timeout")
+			}
+		case len(f) >= 2 && f[0] == "try":
+			fn, ok := call(f[1:])
+			switch {
+			case !ok:
+				out = append(out, "bad-op")
+			case pendA == nil:
+				r := fn()
+				r.rec()
+				out = append(out, "ran "+r.text)
+			case pendB != nil:
+				out = append(out, "busy")
+			default:
+				res := make(chan callRes, 1)
+				go func() { res <- fn() }()
+				select {
+				case r := <-res: // it got past the mutex although the parked call is inside the critical section
+					r.rec()
+					out = append(out, "ran "+r.text)
+				case <-time.After(5 * time.Millisecond):
+					pendB = res
+					out = append(out, "blocked")
+				}
+			}
+		case len(f) == 1 && f[0] == "unpark":
+			if pendA == nil {
+				out = append(out, "none")
+				break
+			}
+			close(relA)
+			relA = nil
+			ra, rb := "timeout", "-"
+			select {
+			case r := <-pendA:
+				r.rec()
+				ra = r.text
+			case <-time.After(10 * time.Second):
+			}
+			if pendB != nil {
+				rb = "timeout"
+				select {
+				case r := <-pendB:
+					r.rec()
+					rb = r.text
+				case <-time.After(10 * time.Second):
+				}
+			}
+			pendA, pendB = nil, nil
+			out = append(out, "a="+ra+" b="+rb)
 		case len(f) == 2 && f[0] == "add":
 			x, _ := strconv.Atoi(f[1])
 			b.Add(x)
@@ -213,6 +353,8 @@ type rfSim struct {
 	outs     []int
 	hung     bool
 	errs     int
+	expSpawn int // a flusher was seen past Reserve before its fetch goroutine called fetchBatch
+	pendTok  int // timer callbacks started while the timeout goroutine was busy (blocked sending their token)
 	consumed int // values the harness (the consumer) has received from Output
 	// expectation of what the fetch goroutines will send, from the hook events (used only to know what to wait for):
 	addedLen  map[int64]int // sequence number -> number of results handed to buffer.Add
@@ -297,6 +439,14 @@ func (s *rfSim) handle(ev rfEvent) {
 	switch ev.label {
 	case "rf.flush.enter":
 		th := s.thr(ev.gid)
+		if th == &s.t && (th.st == tPostMid || th.st == tCapWait) {
+			// the timeout goroutine finished its previous flush (Reserve, spawn) and already took a blocked token; the
+			// fetch goroutine it spawned has not called fetchBatch yet
+			s.expSpawn++
+		}
+		if th == &s.t && th.st != tRunning && s.pendTok > 0 {
+			s.pendTok-- // it got here by taking a token that was blocked on BatchTimedOut
+		}
 		th.st, th.rel = tEnter, ev.rel
 	case "rf.flush.mid":
 		th := s.thr(ev.gid)
@@ -305,6 +455,7 @@ func (s *rfSim) handle(ev rfEvent) {
 		f := &rfFetch{id: len(s.fetches), gid: ev.gid, evs: ev.evs, rel: ev.rel, ctl: ev.ctl, seq: -1}
 		s.fetches = append(s.fetches, f)
 		// the flusher that was past the mid hook has reserved, unlocked and spawned this goroutine
+		matched := false
 		for _, th := range []*rfThread{&s.p, &s.t} {
 			if th.st == tPostMid || th.st == tCapWait {
 				if th == &s.p && !th.returned {
@@ -312,8 +463,12 @@ func (s *rfSim) handle(ev rfEvent) {
 				} else {
 					th.st = tIdle
 				}
+				matched = true
 				break
 			}
+		}
+		if !matched && s.expSpawn > 0 {
+			s.expSpawn--
 		}
 	case "rf.buffer.add":
 		if f := s.fetchOf(ev.gid); f != nil {
@@ -432,6 +587,13 @@ func (s *rfSim) settle() {
 			pred = func() bool { return s.p.st != tRunning }
 		case s.t.st == tRunning:
 			pred = func() bool { return s.t.st != tRunning }
+		case s.expSpawn > 0:
+			pred = func() bool { return s.expSpawn == 0 }
+		case s.t.st == tIdle && s.pendTok > 0:
+			// the timeout goroutine is back in its select: it takes the next blocked token and enters flush
+			s.pendTok--
+			s.t.st = tRunning
+			continue
 		case s.p.st == tPostMid:
 			pred = func() bool { return s.p.st != tPostMid }
 		case s.t.st == tPostMid:
@@ -499,7 +661,7 @@ func (s *rfSim) snapshot() string {
 		r = strings.Join(run, ";")
 	}
 	_, pend := s.dequeued()
-	return fmt.Sprintf("p=%s t=%s run=%s out=%s q=%d pend=%d errs=%d", s.thrStr(&s.p), s.thrStr(&s.t), r, showInts(s.outs), len(s.rf.Output), pend, s.errs)
+	return fmt.Sprintf("p=%s t=%s run=%s out=%s q=%d pend=%d errs=%d tok=%d", s.thrStr(&s.p), s.thrStr(&s.t), r, showInts(s.outs), len(s.rf.Output), pend, s.errs, s.pendTok)
 }
 
 func (s *rfSim) startProducer(call func()) {
@@ -564,17 +726,18 @@ func (s *rfSim) op(f []string) string {
 		s.settle()
 		res = map[bool]string{true: "ret", false: "park"}[s.p.st == tIdle]
 	case len(f) == 1 && (f[0] == "fire" || f[0] == "stale"):
-		if s.t.st != tIdle {
-			res = "tbusy"
-			break
-		}
 		cb := s.tm.callback(f[0] == "stale")
 		if cb == nil {
 			res = "unarmed"
 			break
 		}
-		s.t.st = tRunning
 		go cb()
+		if s.t.st != tIdle {
+			s.pendTok++ // blocked on the unbuffered BatchTimedOut until the timeout goroutine returns to its select
+			res = "pending"
+			break
+		}
+		s.t.st = tRunning
 		s.settle()
 		res = "recv"
 	case len(f) == 2 && f[0] == "rel":
@@ -741,6 +904,30 @@ func c20GenBatcher(r *lib.Rng, tier string) lib.Case {
 			// a token near the current generation: current, stale or future
 			c.Ops = append(c.Ops, fmt.Sprintf("flush %d", max(0, flushes+r.Range(-2, 1))))
 			flushes++
+		case k < 16 && r.Chance(1, 2):
+			// overlap two methods: park one inside the critical section, start another, release (as the router's Add and
+			// the operator goroutine's time-out Flush do in workers/sourcerunner/operator_cluster.go)
+			if r.Bool() {
+				c.Ops = append(c.Ops, fmt.Sprintf("padd %d", next))
+				next++
+			} else {
+				c.Ops = append(c.Ops, lib.Pick(r, []string{"pflush cur", fmt.Sprintf("pflush %d", max(0, flushes+r.Range(-1, 0)))}))
+				flushes++
+			}
+			switch r.Intn(3) {
+			case 0:
+				c.Ops = append(c.Ops, fmt.Sprintf("try add %d", next))
+				next++
+			case 1:
+				c.Ops = append(c.Ops, "try full")
+			default:
+				c.Ops = append(c.Ops, lib.Pick(r, []string{"try flush cur", fmt.Sprintf("try flush %d", max(0, flushes+r.Range(-1, 0)))}))
+				flushes++
+			}
+			if r.Chance(1, 4) {
+				c.Ops = append(c.Ops, "full") // answered `busy` while the mutex is held
+			}
+			c.Ops = append(c.Ops, "unpark")
 		case k < 17:
 			c.Ops = append(c.Ops, "fire")
 		case k < 18:
@@ -834,7 +1021,12 @@ func propC20() *lib.Prop {
 				// a failed fetch still takes its place in the sequence: later batches flow, Reserve is not wedged
 				{Header: "M C20 rf 2 1 2", Tags: []string{"fetch-error"}, Ops: []string{"add 1", "add 2", "rel p", "rel p", "add 3", "add 4", "rel p", "rel p", "add 5", "add 6", "rel p", "rel p", "fail 0", "fin 0", "take 9", "fin 0", "take 9", "add 7", "add 8", "rel p", "rel p", "fin 0", "take 9"}},
 				{Header: "M C20 rf 1 1 1", Tags: []string{"fetch-error"}, Ops: []string{"add 1", "rel p", "rel p", "fail 0", "add 2", "rel p", "rel p", "fin 0", "take 9", "add 3", "rel p", "rel p", "fail 0", "add 4", "rel p", "rel p", "fin 0", "take 9"}},
+				// timer expiries while the timeout goroutine is busy: the callbacks block on BatchTimedOut (two tokens pending, one
+				// of them while the timeout flusher waits in Reserve on a full buffer) and are served one after the other
+				{Header: "M C20 rf 3 1 1", Tags: []string{"pending-token"}, Ops: []string{"add 1", "fire", "rel t", "rel t", "add 2", "fire", "rel t", "rel t", "fire", "stale", "add 3", "fin 0", "take 9", "rel t", "rel t", "fin 0", "take 9", "rel t", "rel t", "fin 0", "take 9"}},
 				{Header: "M C20 b 2 1", Tags: []string{"batcher"}, Ops: []string{"add 1", "fire", "add 2", "full", "flush cur", "stale", "flush 0", "add 3", "flush 0", "fire", "flush 1", "concat"}},
+				// an Add parked inside its critical section while a time-out Flush of the same batch arrives, and the reverse
+				{Header: "M C20 b 3 1", Tags: []string{"overlap"}, Ops: []string{"padd 1", "try flush 0", "unpark", "add 2", "pflush cur", "try add 3", "unpark", "padd 4", "try full", "unpark", "concat"}},
 			}
 		},
 		Gen: func(r *lib.Rng, tier string, i int) lib.Case {
@@ -863,6 +1055,9 @@ func propC20() *lib.Prop {
 				}
 				if strings.Contains(o, " errs=") && !strings.Contains(o, " errs=0") {
 					return true
+				}
+				if strings.Contains(o, " tok=") && !strings.Contains(o, " tok=0") {
+					return true // a timer callback blocked on BatchTimedOut while the timeout goroutine was busy
 				}
 				if strings.HasPrefix(o, "seq=") {
 					q, _ := strconv.Atoi(strings.Fields(o[4:])[0])
